@@ -49,6 +49,7 @@ func init() {
 		return runUniqStall(n, rep, 250*time.Millisecond)
 	}
 	replayers["jlog"] = func(f []string) string { return runJLog(f[1], f[2]) }
+	replayers["jplain"] = func(f []string) string { return runJPlain(f[1]) }
 }
 
 // ------------------------------------------------------------------ value tree -> V encoding
@@ -943,6 +944,57 @@ func (w *countWriter) Write(p []byte) (int, error) {
 	return len(p), nil
 }
 
+// logRealPlain: the results through the real logger in its default (plain-text) mode; observed = the Write calls
+func logRealPlain(rs []scan.Result) (out string) {
+	defer func() {
+		if e := recover(); e != nil {
+			out = fmt.Sprintf("PANIC %v", e)
+		}
+	}()
+	w := &jsonRecWriter{}
+	l, err := log.NewLogger(w, "plain")
+	if err != nil {
+		return "ERR " + err.Error()
+	}
+	ch := make(chan scan.Result, len(rs))
+	for _, r := range rs {
+		ch <- r
+	}
+	close(ch)
+	done := make(chan struct{})
+	go func() {
+		defer close(done)
+		l.LogResults(context.Background(), ch)
+	}()
+	select {
+	case <-done:
+	case <-time.After(20 * time.Second):
+		return "TIMEOUT"
+	}
+	if len(w.writes) == 0 {
+		return "-"
+	}
+	parts := make([]string, len(w.writes))
+	for i, b := range w.writes {
+		parts[i] = hx.Hex(b)
+	}
+	return strings.Join(parts, ",")
+}
+
+func runJPlain(encs string) string {
+	var rs []scan.Result
+	if encs != "-" {
+		for _, e := range strings.Split(encs, "|") {
+			r := decResult(e)
+			if r == nil {
+				return "NOT-REPLAYABLE"
+			}
+			rs = append(rs, r)
+		}
+	}
+	return logRealPlain(rs)
+}
+
 func runJLog(u, encs string) string {
 	var rs []scan.Result
 	if encs != "-" {
@@ -1084,6 +1136,36 @@ func jsonComponent(r *hx.Run) {
 			class = ""
 		}
 		r.Case(class, "jlog", u, e, logReal(uniq, rs))
+	}
+	// plain-text mode (no --json): the same results through the real logger with its default writer; one write per
+	// result: the String() of the result and a newline (arp, tcp, icmp/udp, socks: padded columns)
+	nPlain := 150
+	if r.Tier == "thorough" {
+		nPlain = 3000
+	}
+	for i := 0; i < nPlain; i++ {
+		g := &jgen{r: r, ft: strFeat{}}
+		n := 1 + r.Rng.Intn(5)
+		var rs []scan.Result
+		var encs []string
+		kinds := map[string]bool{}
+		for j := 0; j < n; j++ {
+			typ := []string{"arp", "tcp", "icmp", "udp", "socks"}[r.Rng.Intn(5)]
+			res := g.result(typ)
+			if ir, ok := res.(*icmp.ScanResult); ok && ir.ICMP == nil {
+				ir.ICMP = &icmp.Response{Type: uint8(r.Rng.Intn(256)), Code: uint8(r.Rng.Intn(256))} // the processors always set it
+			}
+			rs = append(rs, res)
+			encs = append(encs, encResult(res))
+			kinds[typ] = true
+		}
+		var ks []string
+		for k := range kinds {
+			ks = append(ks, k)
+		}
+		sort.Strings(ks)
+		r.Count("plain")
+		r.Case("plain/"+strings.Join(ks, "+"), "jplain", strings.Join(encs, "|"), logRealPlain(rs))
 	}
 	// de-duplication over MANY distinct hosts (a live scan of a large network): more than 2^16 of them
 	// … and enough of them that any 32-bit digest of the ID would collide (n^2 / 2^33 ≈ 10 expected pairs)
